@@ -90,10 +90,22 @@ def _annotate_files(objs):
 
 class Ast:
     def __init__(self, workdir=None):
-        self.workdir = workdir or tempfile.mkdtemp(prefix="glverif_ast_")
         if not workdir:
-            import atexit, shutil
-            atexit.register(shutil.rmtree, self.workdir, True)
+            # scratch under /verif/build (never /tmp); removed at exit, and leftovers of killed runs older than an hour are
+            # swept at the next start
+            import atexit, shutil, time
+            base = os.path.join(os.path.dirname(os.path.dirname(os.path.abspath(__file__))), "build", "ast")
+            os.makedirs(base, exist_ok=True)
+            for d in os.listdir(base):
+                q = os.path.join(base, d)
+                try:
+                    if time.time() - os.path.getmtime(q) > 3600:
+                        shutil.rmtree(q, True)
+                except OSError:
+                    pass
+            workdir = tempfile.mkdtemp(prefix="glverif_ast_", dir=base)
+            atexit.register(shutil.rmtree, workdir, True)
+        self.workdir = workdir
         tu = os.path.join(self.workdir, "tu.cpp")
         with open(tu, "w") as f:
             f.write(TU_TEXT)
